@@ -552,11 +552,12 @@ func execC34(env *sim.Env, p *sim.Plan) *sim.Result {
 				}
 				ks := &bls.DKGKeyShare{Share: honestShare(i, j)}
 				ks.ID = o.id
+				// the contract passes the public keys of every miner of the DKG set (dmn.SimpleNodes)
+				c := newSimClient("bls0chain", keys.Child(fmt.Sprintf("node-key-%d", j)))
+				pubs[o.id] = c.pk
 				if (i+j)%3 == 0 {
 					// the recipient acknowledged with a signature instead of the share being revealed
-					c := newSimClient("bls0chain", keys.Child(fmt.Sprintf("node-key-%d", j)))
 					signer[j] = c
-					pubs[o.id] = c.pk
 					ks.Message = encryption.Hash(ks.Share)
 					ks.Sign, _ = c.ss.Sign(ks.Message)
 					ks.Share = ""
